@@ -600,6 +600,42 @@ def check_once(ctx: Context, rep, rule: str) -> None:
            message="func_or_identity returns the given function unchanged")
 
 
+def check_stateless(ctx: Context, rep, rule: str) -> None:
+    rep.rule(
+        rule,
+        "the iteration interfaces keep no per-pass state on the shared "
+        "dataset object: no method of the iteration mixin assigns a `self` "
+        "attribute (two live passes over one Dataset would otherwise "
+        "overwrite each other's decoder / transformation)")
+    mix = ctx.repo.cls(f"{C.ITER_MOD}:DatasetIteration")
+    n = 0
+    for m in mix.methods.values():
+        n += 1
+        stores = []
+        for x in m.body_nodes():
+            tgts = []
+            if isinstance(x, ast.Assign):
+                tgts = x.targets
+            elif isinstance(x, (ast.AugAssign, ast.AnnAssign)):
+                tgts = [x.target]
+            for t in tgts:
+                base = t
+                while isinstance(base, (ast.Attribute, ast.Subscript)):
+                    base = base.value
+                if isinstance(t, (ast.Attribute, ast.Subscript)) and isinstance(
+                        base, ast.Name) and base.id == "self":
+                    stores.append(x)
+            if isinstance(x, ast.Call) and isinstance(x.func, ast.Name) and \
+                    x.func.id == "setattr" and x.args and dotted(x.args[0]) == "self":
+                stores.append(x)
+        rep.ob(rule, not stores, loc=m.loc(stores[0]) if stores else m.loc(),
+               where=m.qualname,
+               construct=short(stores[0], 70) if stores else
+               "no store into self", message="iteration methods only read "
+               "the dataset object", sample=False)
+    rep.floor(rule, n, 8, "iteration mixin methods")
+
+
 def check_walk(ctx: Context, rep, rule: str) -> None:
     rep.rule(
         rule,
@@ -784,6 +820,7 @@ def run(ctx: Context, rep) -> None:
     check_iter_buffer(ctx, rep, "C02.own", helpers[2])
     check_iter_buffer(ctx, rep, "C02.own", helpers[3])
     check_once(ctx, rep, "C02.once")
+    check_stateless(ctx, rep, "C02.stateless")
     check_walk(ctx, rep, "C02.walk")
     check_batch(ctx, rep, "C02.batch")
     rustrules.check_rotation(ctx, rep, "C02.rust-dispatch")
@@ -835,6 +872,9 @@ SELFTESTS = [
          path="src/sedpack/io/npz/iterate_npz.py",
          old="        for i in range(elements):\n            yield {name: value[i] for name, value in shard_content.items()}\n\n    async def",
          new="        for i in range(elements):\n            yield func_or_identity(self.process_record)({name: value[i] for name, value in shard_content.items()})\n\n    async def"),
+    dict(rule="C02.stateless", name="decoder-cached-on-dataset", expect="fire", path=_DI,
+         old="            case _:\n                raise ValueError(\"Unsupported shard_file_type \"\n                                 f\"{self.dataset_structure.shard_file_type}\")\n",
+         new="            case _:\n                raise ValueError(\"Unsupported shard_file_type \"\n                                 f\"{self.dataset_structure.shard_file_type}\")\n        self._last_shard_iterator = shard_iterator\n"),
     dict(rule="C02.walk", name="skip-first-shard", expect="fire", path=_DB,
          old="        yield from shard_list.shard_files\n", new="        yield from shard_list.shard_files[1:]\n"),
     dict(rule="C02.walk", name="loop-instead-of-yield-from-twin", expect="silent",
